@@ -7,6 +7,7 @@ import Pulsar.Typing
 import Pulsar.ReflectSyntax
 import Pulsar.Timepb
 import Pulsar.Anyutil
+import Pulsar.Gen
 import Std.Data.HashMap
 open Pulsar Pulsar.Syntax
 
@@ -29,6 +30,23 @@ def resNat : Res Nat → String
 
 def parseFlags (s : String) : UOpts :=
   { merge := s.contains 'm', discard := s.contains 'd' }
+
+/-- answer of the `features` / `param` commands (formats documented at the top of Pulsar/Gen.lean) -/
+def featuresAnswer (flag : Option String) : String :=
+  match Gen.findFeatures Gen.registered (Gen.parseFeatures flag) id with
+  | .ok fs => "ok " ++ ",".intercalate (Gen.featureNames fs) ++ " emits=" ++ (if Gen.emits fs then "t" else "f")
+  | .error _ => "err"
+
+def msgindexAnswer (forest fullname : String) : String :=
+  match Gen.parseTops forest with
+  | none => "bad-tree"
+  | some tops =>
+    match Gen.resolve tops (Gen.splitOn '.' fullname) with
+    | some (i :: rest) =>
+      (match Gen.msgIndex id tops (i :: rest) with
+       | some n => "ok " ++ toString n ++ " " ++ ",".intercalate (Gen.findParents tops (i :: rest))
+       | none => "panic")
+    | _ => "notfound"
 
 abbrev St := Std.HashMap String Schema
 
@@ -102,6 +120,19 @@ def step (st : St) (line : String) : St × String :=
             | .ok u => "ok " ++ u.typeName ++ " " ++ (if u.dynamic then "dyn" else "go")
             | .err _ => "err" | .panic => "panic")
      | _, _, _ => (st, "bad-op"))
+  | ["features"] => (st, featuresAnswer none)
+  | ["features", v] => (st, featuresAnswer (some (if v == "\"\"" then "" else v)))
+  | ["param"] => (st, featuresAnswer none)
+  | ["param", p] =>
+    (st, match Gen.parseParameter p with
+         | .ok flag => featuresAnswer flag
+         | .error _ => "err")
+  | ["goname", n] => (st, Gen.goFieldName n)
+  | ["msgindex", forest, fullname] => (st, msgindexAnswer forest fullname)
+  | ["flatten", forest] =>
+    (st, match Gen.parseTops forest with
+         | some tops => "ok " ++ ",".intercalate ((Gen.allMessages tops).map Gen.dotted)
+         | none => "bad-tree")
   | ["sov", n] => (st, match n.toNat? with | some n => toString (sov n) | none => "bad-op")
   | ["soz", n] => (st, match n.toNat? with | some n => toString (soz n) | none => "bad-op")
   | ["varint", n] => (st, match n.toNat? with | some n => hexOfBytes (varint n) | none => "bad-op")
